@@ -77,7 +77,9 @@ def gen_string(r):
     c = r.random()
     if c < 0.1:
         return ""
-    if c < 0.28:
+    if c < 0.16:
+        return r.choice(["°C", "µs", "Ω", "mm²", "m/s²", "温度", "é", "kΩ·m", "‰", "naïve ünits"])
+    if c < 0.32:
         parts = []
         for _ in range(r.randint(1, 4)):
             parts.append(r.choice(ESCAPES) if r.random() < 0.6 else "".join(r.choice(STR_CHARS) for _ in range(r.randint(1, 4))))
@@ -157,7 +159,7 @@ def gen_enum(r, name):
 
 def gen_impl(r, structs, used_pairs):
     st = r.choice(structs)
-    proto = ident(r)
+    proto = "can" if r.random() < 0.3 else ident(r)  # 'can' is the protocol the dbc / can_c / cpp back ends look for
     rename = ident(r) if r.random() < 0.4 else None
     name = rename or st["name"]
     if (name, proto) in used_pairs:
